@@ -26,7 +26,7 @@ match scrut_1 with
 | VC c_ args_ =>
   if (c_ =? "State::Body")%string then
     match args_ with
-    | [a_4; a_5; a_6] => (VC "Err" [VC "FrameUnexpected" []])
+    | [a_4; a_5; a_6] => (VC "Err" [VC "Error::FrameUnexpected" []])
     | _ => next_3 tt
     end
   else next_3 tt
@@ -58,7 +58,7 @@ match scrut_1 with
 | VC c_ args_ =>
   if (c_ =? "State::Start")%string then
     match args_ with
-    | [a_4] => (VC "Err" [VC "FrameUnexpected" []])
+    | [a_4] => (VC "Err" [VC "Error::FrameUnexpected" []])
     | _ => next_3 tt
     end
   else next_3 tt
@@ -75,7 +75,7 @@ let buf_9 := v_append a_7 body in
 (let next_12 := fun _ : unit =>
 (let next_13 := fun _ : unit =>
 VStuck in
-(VC "Err" [VC "FrameUnexpected" []])) in
+(VC "Err" [VC "Error::FrameUnexpected" []])) in
 match scrut_10 with
 | VC c_ args_ =>
   if (c_ =? "Ordering::Less")%string then
@@ -113,7 +113,7 @@ match taken_1 with
 | VC c_ args_ =>
   if (c_ =? "Some")%string then
     match args_ with
-    | [a_5] => (self_2, (VC "Err" [VC "FrameUnexpected" []]))
+    | [a_5] => (self_2, (VC "Err" [VC "Error::FrameUnexpected" []]))
     | _ => next_4 tt
     end
   else next_4 tt
@@ -142,7 +142,7 @@ match taken_1 with
 | VC c_ args_ =>
   if (c_ =? "Some")%string then
     match args_ with
-    | [a_5] => (self_2, (VC "Err" [VC "FrameUnexpected" []]))
+    | [a_5] => (self_2, (VC "Err" [VC "Error::FrameUnexpected" []]))
     | _ => next_4 tt
     end
   else next_4 tt
@@ -171,7 +171,7 @@ match taken_1 with
 | VC c_ args_ =>
   if (c_ =? "Some")%string then
     match args_ with
-    | [a_5] => (self_2, (VC "Err" [VC "FrameUnexpected" []]))
+    | [a_5] => (self_2, (VC "Err" [VC "Error::FrameUnexpected" []]))
     | _ => next_4 tt
     end
   else next_4 tt
@@ -202,7 +202,7 @@ match taken_1 with
 | VC c_ args_ =>
   if (c_ =? "None")%string then
     match args_ with
-    | [] => (self_2, (VC "Err" [VC "FrameUnexpected" []]))
+    | [] => (self_2, (VC "Err" [VC "Error::FrameUnexpected" []]))
     | _ => next_6 tt
     end
   else next_6 tt
@@ -381,7 +381,7 @@ match taken_1 with
 | VC c_ args_ =>
   if (c_ =? "None")%string then
     match args_ with
-    | [] => (self_2, (VC "Err" [VC "FrameUnexpected" []]))
+    | [] => (self_2, (VC "Err" [VC "Error::FrameUnexpected" []]))
     | _ => next_6 tt
     end
   else next_6 tt
